@@ -25,7 +25,8 @@ and the sink, nor between the source and the object on the read side; only
 layout operations are allowed on those paths; readers convert with
 astype(float). C06.3: arrays of a result go through np.save / np.load, info
 and stats through json.dumps / json.loads of the dictionaries themselves, and
-the archive member names agree between writer and reader. C06.4: no row is
+the archive member names agree between writer and reader (the format suffix
+is the last piece of the name the loader selects by). C06.4: no row is
 dropped or reordered on any of these paths. C06.5: writer and reader layouts
 are inverse (composition is the identity on timestamps, positions,
 quaternions for TUM; the 3x4 block for KITTI; the 7 DataFrame columns + index
@@ -928,6 +929,14 @@ def _bag(ctx, prog):
 
 
 VARIANTS = [
+    dict(name="result-member-suffix-first", file="evo/tools/file_interface.py",
+         find="            archive.writestr(\"{}{}\".format(name, fmt_suffix),",
+         replace="            archive.writestr(\"{}{}\".format(fmt_suffix, name),",
+         expect="fire", rule="C06.3"),
+    dict(name="result-member-fstring", file="evo/tools/file_interface.py",
+         find="            archive.writestr(\"{}{}\".format(name, fmt_suffix),",
+         replace="            archive.writestr(f\"{name}{fmt_suffix}\",",
+         expect="silent"),
     dict(name="fmt-9f", file="evo/tools/file_interface.py",
          find="    np.savetxt(file_path, mat, delimiter=\" \")",
          replace="    np.savetxt(file_path, mat, delimiter=\" \", fmt=\"%.9f\")",
